@@ -6,6 +6,14 @@ props = [json.loads(l) for l in open(f"{HERE}/properties.jsonl")]
 
 # id -> (technique, level text, level note, design ref)
 CHECKS = {
+ "C01": ("differential against an independent reference evaluator (written from the prose) over proptest-generated grammars x all start rules x generated + exhaustively enumerated inputs, both feature configurations",
+         "Exploration: ~10^7 (quick) parses of ~80k generated grammars per configuration are compared (accept/reject and exact token stream) with the reference semantics evaluated on the unoptimized AST; every short string over each grammar's alphabet is enumerated for a subset. Sampled, not a proof.",
+         "Trusts harness/pv/src/refsem.rs as the reading of the documented semantics (calibration and ambiguity decisions in DESIGN.md 3.4), pest::unicode::by_name for Unicode property built-ins, and skips cases the prose leaves undefined (empty-stack POP/PEEK) or that diverge. Grammars touched by the lister rewrite are set aside (C05 finding D7).",
+         "DESIGN.md section 4, C01"),
+ "C10": ("exhaustive small-scope enumeration of strings x offsets x offset pairs + proptest strings, against direct definitions of line/column/line containment",
+         "Exploration: all strings of <= 6 symbols (quick) / 8 (thorough) over {a, LF, CR, TAB, e-acute, emoji} with every offset and offset pair, plus random long strings; Position/Span/Pair/Error line-column results and the rendered error text are compared with the definitions. Bounded-exhaustive plus sampled.",
+         "Marker alignment is not asserted when a lone CR precedes the offset on its line; empty-span lines() may be empty or the containing line; see DESIGN.md C10.",
+         "DESIGN.md section 4, C10"),
  "C11": ("exhaustive small-scope enumeration + proptest histories against a copy-per-snapshot reference model",
          "Exploration: every operation history up to length 8 (quick) / 10 (thorough) is enumerated and longer random histories are sampled; each step is compared with the naive model of the statement. Bounded-exhaustive plus sampled, not a proof.",
          "Trusts the 40-line reference model in harness/pv/src/c11.rs and that element identity = step index suffices to detect mix-ups.",
